@@ -94,6 +94,7 @@ def big_stream(rng, target, huge=0):
     out = bytearray()
     canon = bytearray()
     nresp = 0
+    bounds = []  # (stream offset, canon length) after each complete response
     while len(out) < target:
         lst = rng.random() < 0.4
         nframes = rng.randint(1, 3) if lst else 1
@@ -119,7 +120,8 @@ def big_stream(rng, target, huge=0):
         out += b"OK\n"
         canon += b"E-|"
         nresp += 1
-    return bytes(out), nresp, canon
+        bounds.append((len(out), len(canon)))
+    return bytes(out), nresp, canon, bounds
 
 
 def big_cuts(rng, n):
